@@ -41,6 +41,9 @@ pub struct Item {
     pub r_path: Range,
     #[serde(default)]
     pub r_value: Option<Range>,
+    /// delimiter of a list form: 0 `( )`, 1 `[ ]`, 2 `{ }` - all three are meta lists to syn and darling
+    #[serde(default)]
+    pub delim: u8,
 }
 
 fn zero() -> Range {
@@ -222,18 +225,20 @@ impl Renderer {
                 item.r_value = Some(self.value(&v));
             }
             Form::List(items) => {
+                let (open, close) = [("(", ")"), ("[", "]"), ("{", "}")][(item.delim % 3) as usize];
                 let b = self.pos();
-                self.push("(");
+                self.push(open);
                 self.nested_list(items);
-                self.push(")");
+                self.push(close);
                 item.r_value = Some((b, self.pos()));
             }
             Form::BadList(raw) => {
+                let (open, close) = [("(", ")"), ("[", "]"), ("{", "}")][(item.delim % 3) as usize];
                 let b = self.pos();
-                self.push("(");
+                self.push(open);
                 let raw = raw.clone();
                 self.push(&raw);
-                self.push(")");
+                self.push(close);
                 item.r_value = Some((b, self.pos()));
             }
         }
